@@ -67,9 +67,12 @@ def optMap : Opt → OptMap
   | .struct s => abs s
 
 /-- Well-formed option values: any `*Struct` passed in satisfies the `Flags` invariant
-(every constructor in the library establishes it; see `wf_*` in Lemmas/FlagsL). -/
+(every constructor in the library establishes it; see `wf_*` in Lemmas/FlagsL), and a
+`jsonflags.Bools` option only names boolean flags (true of every public constructor;
+the harness checks it on every option value it sees). -/
 def Opt.WF : Opt → Prop
   | .struct s => s.flags.WF
+  | .bools f => ∀ k : Slot, f.getLsbD k.idx = false   -- a `Bools` option never names a non-boolean flag
   | _ => True
 
 /-- The reference semantics of `JoinOptions`. -/
